@@ -31,7 +31,7 @@ ASSUMPTIONS = ["backwards clock jumps are not injected (the property speaks of e
                "with a ticking clock the +-1us boundary classes are widened to +-16us and verdicts inside the band are withheld",
                "real-time cross-check is left to the repository's own three sleep-based tests"]
 FAULT_KINDS = ["clock_gap_at_boundary", "clock_tick_between_reads", "expiry"]
-PROBES = ["expired_exactly_at_boundary", "alive_one_us_before_boundary", "restored_from_adapter",
+PROBES = ["created_via_start_instances", "expired_exactly_at_boundary", "alive_one_us_before_boundary", "restored_from_adapter",
           "refused_after_expiry", "self_access_after_expiry_before_sweep", "swept_by_other_access",
           "swept_by_create", "swept_by_metrics", "keepalive_restore"]
 EXHAUSTIVE = {"quick": False, "thorough": False}
@@ -81,7 +81,8 @@ def generate(spec):
             to = gen_timeout(rng)
         insts.append(timeout_us(to))
         last.append(now)
-        events.append({"gap_us": 0, "op": "create", "timeout": to, "session": rng.random() < 0.85})
+        events.append({"gap_us": 0, "op": "create", "timeout": to, "session": rng.random() < 0.85,
+                       "via": rng.choice(["single", "single", "plural"])})
 
     new_inst()
     for _ in range(n_events):
@@ -100,7 +101,8 @@ def generate(spec):
                 to = gen_timeout(rng)
             insts.append(timeout_us(to))
             last.append(now)
-            events.append({"gap_us": gap, "op": "create", "timeout": to, "session": rng.random() < 0.85})
+            events.append({"gap_us": gap, "op": "create", "timeout": to, "session": rng.random() < 0.85,
+                           "via": rng.choice(["single", "single", "plural"])})
         elif r < 0.30:
             events.append({"gap_us": gap, "op": rng.choice(["metrics", "full_metrics"])})
         elif r < 0.34:
@@ -174,9 +176,15 @@ def execute(case):
             op = ev["op"]
             log.add("invoke", n, ev)
             if op == "create":
-                r = w.post("/start-instance", {"timeout": ev["timeout"]})
+                if ev.get("via") == "plural":
+                    res.probe("created_via_start_instances")
+                    r = w.post("/start-instances", {"timeout": ev["timeout"], "instances": 1})
+                    if r.status == 200 and isinstance(r.body, dict) and r.body.get("instance_uuids"):
+                        r.body["instance_uuid"] = r.body["instance_uuids"][0]
+                else:
+                    r = w.post("/start-instance", {"timeout": ev["timeout"]})
                 t1 = clk.now_us
-                if r.status != 200 or not isinstance(r.body, dict):
+                if r.status != 200 or not isinstance(r.body, dict) or "instance_uuid" not in r.body:
                     res.violate("C17.A-create-refused", {"status": r.status})
                     break
                 i = _I()
